@@ -231,6 +231,70 @@ def gen(fn, tier):
         return
 
 
+def _numeric(x):
+    if isinstance(x, bool) or isinstance(x, str) or x is None:
+        return False
+    if isinstance(x, (int, float, np.floating, np.integer)):
+        return True
+    if isinstance(x, np.ndarray):
+        return x.dtype.kind in "fiu" and x.ndim >= 1 and x.size > 0
+    if isinstance(x, (list, tuple)) and len(x) > 0:
+        try:
+            a = np.asarray(x, float)
+            return a.ndim >= 1 and a.size > 0
+        except Exception:
+            return False
+    return False
+
+
+def gen2(fn, tier):
+    """gen(fn) followed by the argument-kind alphabet (alph.kinds: containers, dtypes, memory layouts, whole numbers as ints) applied to
+    every numeric argument of the first two inputs, and - for the reflection generators - every way of asking for a group."""
+    base = []
+    seen_laue = set()
+    for item in gen(fn, tier):
+        yield item
+        sc = item[3]
+        if fn in ("genhkl_all", "genhkl_unique", "genhkl_base", "genhkl"):
+            # the traversal has one branch per Laue class / setting: the kinds are applied to one input of each
+            from xfab import sg
+
+            g_ = sg.sg(sgno=item[0][0], cell_choice=item[0][1])
+            if (g_.Laue, g_.cell_choice) not in seen_laue:
+                seen_laue.add((g_.Laue, g_.cell_choice))
+                base.append(item)
+        elif len(base) < 2 and not (isinstance(sc, tuple) and sc and sc[0] in ("oracle-stl", "box")):
+            base.append(item)
+    for key, ta, la, scale in base:
+        kw = len(ta) == 2 and isinstance(ta[1], dict) and isinstance(ta[0], tuple)
+        pt, pl = (ta[0], la[0]) if kw else (ta, la)
+        for p in range(len(pt)):
+            if not (_numeric(pt[p]) and _numeric(pl[p])):
+                continue
+            kt = {k_: o for k_, o, _ in alph.kinds(pt[p])}
+            kl = {k_: o for k_, o, _ in alph.kinds(pl[p])}
+            for kind in kt:
+                if kind not in kl:
+                    continue
+                t2 = tuple(kt[kind] if i == p else x for i, x in enumerate(pt))
+                l2 = tuple(kl[kind] if i == p else x for i, x in enumerate(pl))
+                kk = (key if not isinstance(key, np.ndarray) else key.tolist(), "arg%d as %s" % (p, kind))
+                yield (kk, (t2, ta[1]) if kw else t2, (l2, la[1]) if kw else l2, scale)
+    if fn in ("genhkl_all", "genhkl_unique"):
+        bind_repo()
+        from xfab import sg
+
+        for no, cc in [(n_, c_) for n_ in alph.RHOMB for c_ in ("standard", "rhombohedral")] + [(14, "standard"), (62, "standard"), (150, "standard"), (225, "standard")]:
+            g = sg.sg(sgno=no, cell_choice=cc)
+            c = alph.conforming_cells(g.crystal_system, g.cell_choice)[0]
+            for lab, kwf in O.group_forms(no, cc):
+                a = (c, 0.05, 0.38)
+                k = dict(output_stl=True, **kwf)
+                yield ((no, cc, "asked by " + lab), (a, k), (a, k), ("kw", fn))
+                a = (c, 0.05, 0.38, kwf.get("sgname"), kwf.get("sgno"), kwf.get("cell_choice", "standard"), True)
+                yield ((no, cc, "asked by " + lab, "positional"), (a, {}), (a, {}), ("kw", fn))
+
+
 ADAPTED = ["_arctan2", "a_to_cell", "b_to_cell", "b_to_epsilon", "b_to_epsilon_old", "cell_invert", "cell_volume", "detect_tilt", "epsilon_to_b",
            "epsilon_to_b_old", "euler_to_u", "find_omega", "find_omega_general", "find_omega_quart", "find_omega_wedge", "form_a_mat",
            "form_a_mat_inv", "form_b_mat", "form_omega_mat", "form_omega_mat_general", "genhkl", "genhkl_all", "genhkl_base", "genhkl_unique",
@@ -303,11 +367,13 @@ def check_case(case):
         return r
     ft = getattr(xfab.tools, fn)
     fl = getattr(xfab.laue, fn)
-    tol = 1e-9
-    for i, (key, ta, la, scale) in enumerate(gen(fn, case["tier"])):
+    tol0 = 1e-9
+    for i, (key, ta, la, scale) in enumerate(gen2(fn, case["tier"])):
         if i % case["nparts"] != case["part"]:
             continue
         k = "%s:%s" % (fn, key if not isinstance(key, np.ndarray) else key.tolist())
+        # float32 input: the modules round different numbers (B vs 2 pi B) to single precision: agreement to single precision only
+        tol = 1e-6 if (isinstance(key, tuple) and any(isinstance(x, str) and "float32" in x for x in key)) else tol0
         if isinstance(scale, tuple) and scale and scale[0] == "oracle-stl":
             # reused-buffer items: both modules must agree with each other AND with the harness metric for the buffer's current contents
             st, vt = call(ft, ta)
@@ -399,7 +465,7 @@ def check_case(case):
             d = max(devs)
             lim2 = tol * 100
             if fn == "ub_to_u_b":
-                lim2 = 1e-12 * max(1.0, float(np.linalg.cond(np.asarray(la[0], float))))
+                lim2 = max(1e-12 * max(1.0, float(np.linalg.cond(np.asarray(la[0], float)))), tol * 100 if tol > tol0 else 0.0)
             if not d <= lim2:
                 model = None
                 if fn == "ubi_to_u_and_eps" and devs[0] <= tol * 100:
